@@ -657,8 +657,12 @@ Fixpoint strip_underscores (s : str) (prev_digit : bool) : option str :=
     else None
   end.
 
+(* the white space int() strips: the Unicode spaces above ASCII are mapped to a blank first, below 128 only
+   what C isspace accepts counts, so the separators 1C-1F (str.isspace, str.strip) are not stripped *)
+Definition int_ws (c : N) : bool := uni_ws c && negb ((28 <=? c) && (c <=? 31)).
+
 Definition py_int (s : str) : res Z :=
-  let s := py_strip s in
+  let s := strip int_ws s in
   let '(neg, body) :=
     match s with
     | c :: r => if c =? DASH then (true, r) else if c =? 43 then (false, r) else (false, s)
@@ -758,6 +762,96 @@ Definition cc_set (d : odict) (key : str) (v : cc_value) (ty : cc_type) : res od
   | _, CvInt z => do s <- str_of_Z z; Ok (dict_set key (Some s) d)
   | CcInt, CvStr s => do z <- py_int s; do s' <- str_of_Z z; Ok (dict_set key (Some s') d)
   | _, CvStr s => Ok (dict_set key (Some s) d)
+  end.
+
+(* ================================================================== base64 and the auth serialisers *)
+
+(* base64.b64encode *)
+Definition b64_char (v : N) : N :=
+  if v <? 26 then 65 + v else if v <? 52 then 71 + v else if v <? 62 then v - 4 else if v =? 62 then 43 else 47.
+
+Fixpoint b64encode (b : bytes) : str :=
+  match b with
+  | [] => []
+  | b0 :: r0 =>
+    match r0 with
+    | [] => [b64_char (b0 / 4); b64_char ((b0 mod 4) * 16); 61; 61]
+    | b1 :: r1 =>
+      match r1 with
+      | [] => [b64_char (b0 / 4); b64_char ((b0 mod 4) * 16 + b1 / 16); b64_char ((b1 mod 16) * 4); 61]
+      | b2 :: r2 =>
+        b64_char (b0 / 4) :: b64_char ((b0 mod 4) * 16 + b1 / 16) :: b64_char ((b1 mod 16) * 4 + b2 / 64)
+          :: b64_char (b2 mod 64) :: b64encode r2
+      end
+    end
+  end.
+
+
+Definition s_Basic_sp : str := [66; 97; 115; 105; 99; 32].
+
+(* Authorization(basic, username, password).to_header() *)
+Definition basic_to_header (username password : str) : str :=
+  s_Basic_sp ++ b64encode (utf8_encode (username ++ COLON :: password)).
+
+
+(* str.title() on ASCII letters: upper-case after a non-letter, lower-case otherwise *)
+Fixpoint title_from (prev_cased : bool) (s : str) : str :=
+  match s with
+  | [] => []
+  | c :: r => (if prev_cased then ascii_lower c else ascii_upper c) :: title_from (is_alpha c) r
+  end.
+Definition py_title (s : str) : str := title_from false s.
+
+
+(* Authorization(type, token=token).to_header() *)
+Definition token_to_header (scheme token : str) : str := py_title scheme ++ SP :: token.
+
+
+(* ================================================================== HTTP dates, at the level of the UTC field tuple *)
+
+(* weekday 0 = Monday ... 6, month 1..12, as datetime.timetuple() gives them *)
+Record date_fields := { f_wday : N; f_day : N; f_mon : N; f_year : N; f_hour : N; f_min : N; f_sec : N }.
+
+Definition wday_names : list str :=
+  [[77; 111; 110]; [84; 117; 101]; [87; 101; 100]; [84; 104; 117]; [70; 114; 105]; [83; 97; 116]; [83; 117; 110]].
+Definition mon_names : list str :=
+  [[74; 97; 110]; [70; 101; 98]; [77; 97; 114]; [65; 112; 114]; [77; 97; 121]; [74; 117; 110];
+   [74; 117; 108]; [65; 117; 103]; [83; 101; 112]; [79; 99; 116]; [78; 111; 118]; [68; 101; 99]].
+
+(* %02d / %04d for values that fit the width *)
+Definition pad2 (n : N) : str := [48 + n / 10; 48 + n mod 10].
+Definition pad4 (n : N) : str := [48 + n / 1000; 48 + (n / 100) mod 10; 48 + (n / 10) mod 10; 48 + n mod 10].
+
+Definition s_GMT : str := [71; 77; 84].
+
+(* email.utils.format_datetime(dt, usegmt=True) on the field tuple of dt *)
+Definition format_http_date (f : date_fields) : str :=
+  nth (N.to_nat (f_wday f)) wday_names [] ++ [COMMA; SP] ++ pad2 (f_day f) ++ [SP]
+  ++ nth (N.to_nat (f_mon f - 1)) mon_names [] ++ [SP] ++ pad4 (f_year f) ++ [SP]
+  ++ pad2 (f_hour f) ++ [COLON] ++ pad2 (f_min f) ++ [COLON] ++ pad2 (f_sec f) ++ [SP] ++ s_GMT.
+
+Fixpoint month_index (name : str) (names : list str) (i : N) : option N :=
+  match names with
+  | [] => None
+  | x :: r => if list_eqb (lower name) (lower x) then Some i else month_index name r (i + 1)
+  end.
+
+Definition num2 (a b : N) : option N := if is_digit a && is_digit b then Some ((a - 48) * 10 + (b - 48)) else None.
+
+(* email.utils.parsedate_to_datetime restricted to the canonical IMF-fixdate shape
+   (the weekday name is ignored, as the library does); None = not of that shape: outside this model *)
+Definition parse_http_date (s : str) : option (N * N * N * N * N * N) :=
+  match s with
+  | _ :: _ :: _ :: c1 :: sp1 :: d1 :: d2 :: sp2 :: m1 :: m2 :: m3 :: sp3 :: y1 :: y2 :: y3 :: y4 :: sp4
+      :: h1 :: h2 :: c2 :: i1 :: i2 :: c3 :: s1 :: s2 :: sp5 :: z1 :: z2 :: z3 :: [] =>
+    if (c1 =? COMMA) && (sp1 =? SP) && (sp2 =? SP) && (sp3 =? SP) && (sp4 =? SP) && (sp5 =? SP)
+       && (c2 =? COLON) && (c3 =? COLON) && list_eqb [z1; z2; z3] s_GMT then
+      match num2 d1 d2, month_index [m1; m2; m3] mon_names 1, num2 y1 y2, num2 y3 y4, num2 h1 h2, num2 i1 i2, num2 s1 s2 with
+      | Some d, Some mo, Some yh, Some yl, Some h, Some mi, Some se => Some (d, mo, yh * 100 + yl, h, mi, se)
+      | _, _, _, _, _, _, _ => None
+      end
+    else None
+  | _ => None
   end.
 
 (* ================================================================== driver helpers (decimal text <-> Z without OCaml ints) *)
